@@ -646,12 +646,30 @@ class Holds(Monitor):
         self.H: Set[Tuple[str, str]] = set()      # (name, point)
         self.HP: Optional[int] = None
         self.manual: Set[Tuple[str, str]] = set()
+        self._cfg_done = False
 
     def key(self):
         return (tuple(sorted(self.H)), self.HP, tuple(sorted(self.manual)))
 
+    def _from_config(self, w) -> None:
+        """A hold point configured in flow.cylc / on the command line
+        (spec['hold']) is in effect from the start."""
+        if self._cfg_done:
+            return
+        self._cfg_done = True
+        hp = w.spec.get('hold')
+        if hp is None:
+            return
+        self.HP = int(hp)
+        pool = getattr(getattr(w, 'schd', None), 'pool', None)
+        if pool is not None:
+            for it in pool.get_tasks():
+                if int(str(it.point)) > self.HP:
+                    self.H.add((it.tdef.name, str(it.point)))
+
     def on_event(self, kind: str, data: dict) -> None:
         w = self.w
+        self._from_config(w)
         if kind == 'command':
             ok = bool(data['result'][0]) if data.get('result') else False
             if not ok:
@@ -723,6 +741,7 @@ class Holds(Monitor):
                         self.H.discard(i)
 
     def after(self, w: World, ev: tuple) -> List[dict]:
+        self._from_config(w)
         out, self.bad = self.bad, []
         if not w.running:
             self.pending_cmd = None   # a queued command dies with the process
